@@ -293,6 +293,61 @@ def rule_symmetry(repo, rule):
                 rule.violation(fi.loc(t), fi.fq, norm(t.test), "run-time check is not suppressible", "%s/unsup" % fi.qual)
 
 
+class _NoEval(Exception):
+    pass
+
+
+def _ceval(n, env):
+    """Constant evaluation of a pure integer expression over the names bound in env (texts -> ints)."""
+    t = norm(n)
+    if t in env:
+        return env[t]
+    if isinstance(n, ast.Constant) and isinstance(n.value, (int, bool)):
+        return n.value
+    if isinstance(n, ast.BinOp):
+        a, b = _ceval(n.left, env), _ceval(n.right, env)
+        ops = {ast.Add: lambda: a + b, ast.Sub: lambda: a - b, ast.Mult: lambda: a * b, ast.BitAnd: lambda: a & b,
+               ast.BitOr: lambda: a | b, ast.BitXor: lambda: a ^ b, ast.FloorDiv: lambda: a // b, ast.Mod: lambda: a % b}
+        if type(n.op) in ops:
+            try:
+                return ops[type(n.op)]()
+            except ZeroDivisionError:
+                raise _NoEval("division by zero in %s" % t)
+        if isinstance(n.op, ast.LShift) and 0 <= b <= 64:
+            return a << b
+        if isinstance(n.op, ast.RShift) and 0 <= b:
+            return a >> b
+        if isinstance(n.op, ast.Pow) and 0 <= b <= 64 and abs(a) <= 16:
+            return a ** b
+        raise _NoEval(t)
+    if isinstance(n, ast.UnaryOp):
+        a = _ceval(n.operand, env)
+        if isinstance(n.op, ast.USub):
+            return -a
+        if isinstance(n.op, ast.Invert):
+            return ~a
+        if isinstance(n.op, ast.Not):
+            return not a
+        raise _NoEval(t)
+    if isinstance(n, ast.BoolOp):
+        vals = [_ceval(v, env) for v in n.values]
+        return all(vals) if isinstance(n.op, ast.And) else any(vals)
+    if isinstance(n, ast.Compare):
+        items = [_ceval(x, env) for x in [n.left] + list(n.comparators)]
+        cmp = {ast.Eq: lambda x, y: x == y, ast.NotEq: lambda x, y: x != y, ast.Lt: lambda x, y: x < y, ast.LtE: lambda x, y: x <= y,
+               ast.Gt: lambda x, y: x > y, ast.GtE: lambda x, y: x >= y}
+        for k, op in enumerate(n.ops):
+            if type(op) not in cmp:
+                raise _NoEval(t)
+            if not cmp[type(op)](items[k], items[k + 1]):
+                return False
+        return True
+    if isinstance(n, ast.Call) and isinstance(n.func, ast.Attribute) and n.func.attr == "bit_length" and not n.args:
+        return int(_ceval(n.func.value, env)).bit_length()
+    raise _NoEval(t)
+
+
+
 def check(repo, rep, tier):
     rep.explanation = ("Each assertion method contains both sides of the comparison the property is about: the run-time "
                        "check `if A op B: raise` is negated and normalised to a canonical affine relation over the symbols "
@@ -314,6 +369,9 @@ def check(repo, rep, tier):
     r5 = rep.rule("R-C03-5", "checks are suppressible, gadgets are not", floor=14)
     rule_symmetry(repo, r5)
     # packing: range check on unpack of secret values
+    r7 = rep.rule("R-C03-7", "declarations and assertions are enforced at every call: no 'already constrained' state skips them", floor=4)
+    from .memoryless import rule_memoryless
+    rule_memoryless(repo, r7)
     r6 = rep.rule("R-C03-6", "packing: secret bounded integers are range-checked on unpack", floor=1)
     pk = repo.cls("pysnark.pack", "PackIntMod")
     un = pk.methods["unpack"]
@@ -325,5 +383,43 @@ def check(repo, rep, tier):
             r6.ok(un.loc(c[0]), un.fq, norm(c[0]), "the value returned is the value range-checked against the modulus")
         else:
             r6.violation(un.loc(c[0]), un.fq, norm(c[0]), "range check is applied to a value other than the one returned", "pack/recv")
+        # the check may be skipped only for moduli whose every bitlen()-bit pattern is in range (mod == 2^bitlen):
+        # tests governing it (other than the operand-kind dispatch) are evaluated over all small moduli
+        gov = []
+        for g in parents(c[0]):
+            if g is un.node:
+                break
+            if isinstance(g, ast.If) and "isinstance" not in norm(g.test):
+                inbody = any(c[0] is x for st in g.body for x in ast.walk(st))
+                gov.append((g.test, inbody))
+            elif isinstance(g, (ast.For, ast.While, ast.Try, ast.With, ast.IfExp)):
+                gov.append((None, True))
+        if gov:
+            bl = pk.methods.get("bitlen")
+            blret = [n.value for n in ast.walk(bl.node) if isinstance(n, ast.Return)] if bl is not None else []
+            verdict = None
+            witness = None
+            for mod in range(1, 1100):
+                try:
+                    envv = {"self.mod": mod}
+                    if blret:
+                        envv["self.bitlen()"] = _ceval(blret[0], envv)
+                    run = all(t is not None and bool(_ceval(t, envv)) == pol for t, pol in gov)
+                except _NoEval as e:
+                    verdict = "undecided: %s" % e
+                    break
+                need = mod != (1 << (mod - 1).bit_length())
+                if need and not run:
+                    witness = mod
+                    break
+            term = " and ".join(("" if pol else "not ") + (norm(t) if t is not None else "<loop/try>") for t, pol in gov)
+            if witness is not None:
+                r6.violation(un.loc(c[0]), un.fq, "assert_lt(self.mod) only if %s" % term, "the range check is skipped for mod = %d "
+                             "although %d-bit patterns >= %d exist: such a value is accepted and emits no comparison" % (
+                                 witness, (witness - 1).bit_length(), witness), "pack/skipped")
+            elif verdict:
+                r6.undecided(un.loc(c[0]), un.fq, "assert_lt(self.mod) only if %s" % term, verdict)
+            else:
+                r6.ok(un.loc(c[0]), un.fq, "assert_lt(self.mod) only if %s" % term, "evaluated for mod = 1..1099: skipped only when mod == 2^bitlen")
     else:
         r6.violation(un.loc(), un.fq, norm(un.node.body)[:120], "secret value unpacked without `assert_lt(self.mod)`", "pack/none")
